@@ -195,6 +195,23 @@ func runSweep(c *lib.Ctx, dir string) error {
 		c.Distinct(cl.Kind + "|" + cl.stem())
 	}
 	c.Set("sweep_outcomes", hist)
+	{
+		idx := make([]int, len(outs))
+		for i := range idx {
+			idx[i] = i
+		}
+		sort.Slice(idx, func(a, b int) bool { return outs[idx[a]].Ms > outs[idx[b]].Ms })
+		var slowest []string
+		var totalMs int64
+		for _, o := range outs {
+			totalMs += o.Ms
+		}
+		for _, i := range idx[:min(12, len(idx))] {
+			slowest = append(slowest, fmt.Sprintf("%d ms: %s", outs[i].Ms, calls[i].Code))
+		}
+		c.Set("sweep_slowest_calls", slowest)
+		c.Set("sweep_sum_of_call_ms", totalMs)
+	}
 	c.Set("sweep_returned_only_after_interrupt", slow)
 	for i := 0; i < 3 && i < len(calls); i++ {
 		c.Sample(map[string]any{"call": calls[len(calls)/3*i+1], "outcome": outs[len(calls)/3*i+1].Outcome})
